@@ -110,7 +110,7 @@ def step (s : State) (w : List String) : State × String :=
         let s' := { s with fmt := fo, sect := a, opt := b }
         let (pf, t) := parseFormat fo
         let fcn := if (Kind.ofType t).isSome then "yes" else "no"
-        (s', s!"R ok type={t.toNat} fcn={fcn} | C ss={pf.sstart.toNat} se={pf.send.toNat} os={pf.ostart.toNat} as={pf.assign.toNat} oe={pf.oend.toNat} esc={toHex pf.esc} com={toHex pf.com}")
+        (s', s!"R ok type={t.toNat} fcn={fcn} | I ss={pf.sstart.toNat} se={pf.send.toNat} os={pf.ostart.toNat} as={pf.assign.toNat} oe={pf.oend.toNat} esc={toHex pf.esc} com={toHex pf.com}")
     | _, _ => (s, "bad-op")
   | "p" :: "input" :: h :: rest =>
     let e : Option Int := match rest with
